@@ -525,10 +525,11 @@ fn check(world: &mut World, ctx: &mut Ctx, out: &mut Outcome, i: usize, rt: bool
 
     // ------------------------------------------------------------------ model correspondence
     let mut predicted: Vec<bool> = vec![false; qs.len()];
-    if let Some(d) = ctx.drv.as_deref_mut() {
-        if let Some(f) = model_check(d, out, i, &qs, &live, &rw, &live_side, &img, &rw_side, &doc_side, &doc_img, rv, &mut predicted) { return Some(f); }
-    }
-    let _ = &ro_side;
+    // (a disagreement is reported only when the property oracle below has nothing to say about this check point)
+    let model_fail: Option<Fail> = match ctx.drv.as_deref_mut() {
+        Some(d) => model_check(d, out, i, &qs, &live, &rw, &live_side, &img, &rw_side, &doc_side, &doc_img, rv, &mut predicted),
+        None => None,
+    };
 
     // ------------------------------------------------------------------ property oracle
     for (k, q) in qs.iter().enumerate() {
@@ -575,7 +576,7 @@ fn check(world: &mut World, ctx: &mut Ctx, out: &mut Outcome, i: usize, rt: bool
             }
         }
     }
-    None
+    model_fail
 }
 
 fn cut(s: &str, n: usize) -> String { if s.len() <= n { s.to_string() } else { format!("{}…", s.chars().take(n).collect::<String>()) } }
@@ -862,6 +863,7 @@ fn main() {
     let verbose = args.extra.get("verbose").map(|s| s == "1").unwrap_or(false);
     for (label, acts) in corpus() {
         if let Some(o) = &only { if *o != label { continue; } }
+        if sum.oracle_violations.len() + sum.disagreements.len() >= max_fail { break; }
         let mut ctx = Ctx { drv: drv.as_mut(), thorough: args.thorough, verbose, no_rv };
         let out = run_history(&acts, &mut ctx);
         sum.branch("corpus");
